@@ -45,6 +45,10 @@ pub fn real_gicc(f: &Fill, shape: u16) -> Gicc {
     if shape & 8 != 0 {
         steps.reverse();
     }
+    if shape & 16 != 0 {
+        // every option applied twice with the same arguments: a repeated write to the same cell changes nothing
+        steps = steps.iter().flat_map(|s| [*s, *s]).collect();
+    }
     for st in steps {
         g = match st {
             0 => g.cpu_interface_number(f.u32(1)),
@@ -236,7 +240,7 @@ impl Table for Madt {
                         } else if j == 1 {
                             15
                         } else {
-                            0
+                            23
                         }
                     }
                     K_GICMSI => {
@@ -312,7 +316,7 @@ impl Table for Madt {
     }
     fn shapes(&self, k: u8) -> Vec<u16> {
         match k {
-            K_GICC => vec![7, 0, 1, 2, 4, 3, 5, 6, 15, 11],
+            K_GICC => vec![7, 0, 1, 2, 4, 3, 5, 6, 15, 11, 23, 31],
             K_GICMSI => vec![1, 0],
             _ => vec![0],
         }
